@@ -7,6 +7,7 @@ import (
 	"slices"
 	"strconv"
 	"strings"
+	"time"
 )
 
 func padForLen(l, padSize int) int {
@@ -91,4 +92,13 @@ func parseUint(val string, bits int) (uint64, error) {
 	} else {
 		return strconv.ParseUint(val, 10, bits)
 	}
+}
+
+// checkTextDateTime rejects an instant that the XML and JSON writers cannot write
+// back: they use RFC 3339, which only has four-digit years.
+func checkTextDateTime(t time.Time) error {
+	if y := t.Year(); y < 0 || y > 9999 {
+		return Errorf("date-time is out of range")
+	}
+	return nil
 }
